@@ -328,3 +328,50 @@ func findUnclosedBracketBytes(input []byte) rune {
 	}
 	return 0
 }
+
+// ruleError 语法规则内部给出的错误(如 break 不在循环内)。和 friendlyError 一样按语言输出，
+// 此前这些文本是写死的单一语言，不受 ParseErrorLanguage 影响
+type ruleError struct {
+	msg     bilingualMsg
+	lang    int
+	langSet bool
+}
+
+func ruleErr(cn, en string) error {
+	return &ruleError{msg: bilingualMsg{cn, en}}
+}
+
+func (e *ruleError) Error() string {
+	lang := e.lang
+	if !e.langSet {
+		verifShared("parseErrorLanguage", false)
+		lang = parseErrorLanguage
+	}
+	switch lang {
+	case ParseErrorLanguageChinese:
+		return e.msg.cn
+	case ParseErrorLanguageEnglish:
+		return e.msg.en
+	default:
+		return e.msg.cn + " / " + e.msg.en
+	}
+}
+
+// bindRuleErrorLanguage 将解析错误中由语法规则给出的错误绑定到指定语言(与 bindParseErrorLanguage 配套)
+func bindRuleErrorLanguage(err error, lang int) {
+	bind := func(e error) {
+		if pe, ok := e.(*parserError); ok {
+			e = pe.Inner
+		}
+		if re, ok := e.(*ruleError); ok {
+			re.lang, re.langSet = lang, true
+		}
+	}
+	if lst, ok := err.(errList); ok {
+		for _, e := range lst {
+			bind(e)
+		}
+		return
+	}
+	bind(err)
+}
